@@ -914,9 +914,13 @@ fn rule_c17(ctx: &Ctx, out: &mut Vec<Violation>) {
         if bad_open {
             match &s.started {
                 Some((_, _, code)) if *code == INVALID_ARGUMENT => {}
+                // a well-formed name that names nothing (any more) may be answered NOT_FOUND before the
+                // numbers are looked at
+                Some((_, _, code)) if *code == NOT_FOUND && !definitely_malformed_name(&s.sub) && m.unique_sub(&s.sub).map(|i| m.sub_delete_ever(&i.name)).unwrap_or(true) => {}
                 Some((_, _, code)) => {
                     if !matches!(s.end, Some((_, _, StreamEnd::Dropped))) {
-                        out.push(v("C17.status", "stream_open_accepted", format!("StreamingPull on {:?} with max_outstanding_messages {} answered with code {}", s.sub, s.max_msgs, code)));
+                        let key = if definitely_malformed_name(&s.sub) { "stream_open_accepted:name" } else { "stream_open_accepted:limits" };
+                        out.push(v("C17.status", key, format!("StreamingPull on {:?} with max_outstanding_messages {} answered with code {}", s.sub, s.max_msgs, code)));
                     }
                 }
                 None => {}
